@@ -33,6 +33,8 @@ def rs_str(s):
 
 
 def ty_rs(t):
+    if t.get("alias"):
+        return t["alias"]
     k = t["k"]
     if k == "prim": return PRIM_PATH.get(t["r"], t["r"])
     if k == "option": return f"Option<{ty_rs(t['t'])}>"
@@ -224,6 +226,24 @@ fn probe<T: TS + 'static + ?Sized>(values: Vec<Option<String>>, is_item: bool) -
     }
     o
 }
+fn export_one<T: TS + 'static + ?Sized>(dir: &std::path::Path, how: &str) -> Value {
+    let r = catch_unwind(AssertUnwindSafe(|| {
+        if how == "env" {
+            std::env::set_var("TS_RS_EXPORT_DIR", dir);
+            let r = T::export_all();
+            std::env::remove_var("TS_RS_EXPORT_DIR");
+            r
+        } else if how == "export" {
+            std::env::set_var("TS_RS_EXPORT_DIR", dir);
+            let r = T::export();
+            std::env::remove_var("TS_RS_EXPORT_DIR");
+            r
+        } else {
+            T::export_all_to(dir)
+        }
+    }));
+    match r { Ok(Ok(())) => json!("ok"), Ok(Err(_)) => json!("err"), Err(_) => json!("panic") }
+}
 fn ser<T: serde::Serialize>(v: T) -> Option<String> { serde_json::to_string(&v).ok() }
 fn de<T: serde::de::DeserializeOwned + serde::Serialize>(j: &str) -> Value {
     match serde_json::from_str::<T>(j) { Ok(v) => json!({"ok": serde_json::to_string(&v).ok()}), Err(e) => json!({"err": e.to_string()}) }
@@ -237,11 +257,14 @@ def render_crate(programs):
     main = ["fn main() {", "  std::panic::set_hook(Box::new(|_| {}));",
             "  let args: Vec<String> = std::env::args().collect();",
             "  if args.len() > 1 && args[1] == \"de\" { de_main(); return; }",
+            "  if args.len() > 3 && args[1] == \"export\" { export_main(&args[2], &args[3]); return; }",
             "  let mut out = std::io::BufWriter::new(std::io::stdout());", "  use std::io::Write;"]
     de_arms = []
     for pi, prog in enumerate(programs):
         items = {it["name"]: it for it in prog["items"]}
         L.append(f"mod p{pi} {{ use super::*;")
+        for al in prog.get("aliases", []):
+            L.append(f"  pub type {al['name']} = {ty_rs(al['ty'])};")
         for it in prog["items"]:
             L.append("  " + item_rs(it))
         L.append("  pub fn run() -> Vec<Value> { let mut v = Vec::new();")
@@ -255,6 +278,11 @@ def render_crate(programs):
             if pr.get("de"):
                 de_arms.append(f'    ({pi}, {qi}) => p{pi}::de_{qi}(j),')
         L.append("    v }")
+        L.append("  pub fn export(dir: &std::path::Path, how: &str) -> Vec<Value> { let mut v = Vec::new();")
+        for qi, pr in enumerate(prog["probes"]):
+            if pr["ty"]["k"] == "named":
+                L.append(f"    v.push(export_one::<{ty_rs(pr['ty'])}>(dir, how));")
+        L.append("    v }")
         for qi, pr in enumerate(prog["probes"]):
             if pr.get("de"):
                 L.append(f"  pub fn de_{qi}(j: &str) -> Value {{ de::<{ty_rs(pr['ty'])}>(j) }}")
@@ -262,6 +290,11 @@ def render_crate(programs):
         main.append(f'  writeln!(out, "{{}}", json!({{"probes": p{pi}::run()}})).unwrap();')
     main.append("}")
     L += main
+    L.append("fn export_main(dir: &str, how: &str) {")
+    L.append("  use std::io::Write; let mut out = std::io::BufWriter::new(std::io::stdout());")
+    for pi, prog in enumerate(programs):
+        L.append(f'  {{ let d = std::path::Path::new(dir).join("p{pi}"); let r = p{pi}::export(&d, how); writeln!(out, "{{}}", json!(r)).unwrap(); }}')
+    L.append("}")
     L.append('''fn de_main() {
   use std::io::{BufRead, Write};
   let mut out = std::io::BufWriter::new(std::io::stdout());
@@ -363,3 +396,25 @@ def run_de(ctx, tag, queries):
     if len(res) != len(queries):
         raise RuntimeError(f"de dispatch answered {len(res)} of {len(queries)}: {pr.stderr[-300:]}")
     return res
+
+
+def run_export(ctx, tag, how, out_dir, env_extra=None):
+    """run the compiled corpus binary in export mode; returns (per-program step results, {program index: {rel path: text}})"""
+    import subprocess
+    d = os.path.join(vlib.BUILD, f"e2e-{tag}")
+    binary = os.path.join(d, "target", "debug", f"e2e-{tag}")
+    shutil.rmtree(out_dir, ignore_errors=True)
+    os.makedirs(out_dir, exist_ok=True)
+    env = vlib.cargo_env()
+    if env_extra:
+        env.update(env_extra)
+    pr = subprocess.run([binary, "export", out_dir, how], cwd=out_dir, env=env, stdout=subprocess.PIPE, stderr=subprocess.PIPE, text=True, timeout=3000)
+    res = [json.loads(l) for l in pr.stdout.split("\n") if l.strip()]
+    trees = {}
+    for root, _, files in os.walk(out_dir):
+        for fn in files:
+            p = os.path.join(root, fn)
+            rel = os.path.relpath(p, out_dir)
+            top, _, rest = rel.partition(os.sep)
+            trees.setdefault(top, {})[rest] = open(p, encoding="utf-8", errors="replace").read()
+    return res, trees
